@@ -14,6 +14,7 @@ from vlib import fuzz as FZ, gen_deleg, gen_envelope as GE, gen_json as G, gen_m
 from vlib.ref_canon import canon
 from vlib import cfgunit as _cfgunit
 from vlib.runner import REPO, Unit, Violation
+from vlib import threaded as _threaded
 from vlib import interfere as _interfere, interrupt as _interrupt
 
 PROPERTY = "C13"
@@ -398,4 +399,5 @@ UNITS = [
     _cfgunit.unit_under_config(PROPERTY, 'positions', exclude=(), n_cases=20),
     _interfere.unit_after(PROPERTY, 'mutations', quick=150, thorough=6000),
     _interrupt.unit_interrupted(PROPERTY, 'mutations', quick=18, thorough=450, max_points=150),
+    _threaded.unit_threads(PROPERTY),
 ]
